@@ -43,6 +43,9 @@ func stateProbeSource(w *gen.World) string {
 		b.WriteString(`{{import "/lib/lib0.jet"}}`)
 	}
 	b.WriteString("<ctx:{{.}}>")
+	// Runtime.Let called from a function at the top level of the template, before anything else wrote
+	// a variable: the caller's VarMap is not the place for it
+	b.WriteString(`<let:{{isset(zqlet)}}{{lettop()}}{{isset(zqlet)}}>`)
 	b.WriteString("<content:{{yield content}}>")
 	b.WriteString("<set:")
 	for _, v := range w.VarNames {
